@@ -80,12 +80,16 @@ func NewClient(krb5Cl *client.Client, httpCl *http.Client, spn string) *Client {
 
 // Do is the SPNEGO enabled HTTP client's equivalent of the http.Client's Do method.
 func (c *Client) Do(req *http.Request) (resp *http.Response, err error) {
-	var body bytes.Buffer
+	var body []byte
 	if req.Body != nil {
-		// Use a tee reader to capture any body sent in case we have to replay it again
-		teeR := io.TeeReader(req.Body, &body)
-		teeRC := teeReadCloser{teeR, req.Body}
-		req.Body = teeRC
+		// Read the whole body up front so it can be sent again intact if the request has to be replayed.
+		// A server may answer before it has read the body so what the transport consumed cannot be relied upon.
+		body, err = io.ReadAll(req.Body)
+		req.Body.Close()
+		if err != nil {
+			return nil, err
+		}
+		req.Body = io.NopCloser(bytes.NewReader(body))
 	}
 	resp, err = c.Client.Do(req)
 	if err != nil {
@@ -99,7 +103,7 @@ func (c *Client) Do(req *http.Request) (resp *http.Response, err error) {
 				}
 				if req.Body != nil {
 					// Refresh the body reader so the body can be sent again
-					e.reqTarget.Body = io.NopCloser(&body)
+					e.reqTarget.Body = io.NopCloser(bytes.NewReader(body))
 				}
 				return c.Do(e.reqTarget)
 			}
@@ -113,7 +117,7 @@ func (c *Client) Do(req *http.Request) (resp *http.Response, err error) {
 		}
 		if req.Body != nil {
 			// Refresh the body reader so the body can be sent again
-			req.Body = io.NopCloser(&body)
+			req.Body = io.NopCloser(bytes.NewReader(body))
 		}
 		io.Copy(io.Discard, resp.Body)
 		resp.Body.Close()
